@@ -149,6 +149,23 @@ def do_write(case, d, res):
 
 def do_queries(case, env, res):
     w = env.wiki
+    # the redirect matcher of the opened archive, as an oracle for the model: text -> fully qualified target
+    texts = []
+    for op in case.get("ops", []):
+        if op["op"] == "pages":
+            for p in op["pages"]:
+                for r in (p.get("revisions") or []):
+                    texts.append(r["text"])
+        else:
+            texts.append(op["text"])
+    rtab = {}
+    nh = w.nshandler
+    for t in texts:
+        if t and t not in rtab:
+            target = nh.redirect_matcher(t)
+            if target:
+                rtab[t] = nh.get_fqname(target)
+    res["redirect_of"] = [[k, v] for k, v in rtab.items()]
     for q in case.get("queries", []):
         try:
             kind = q["q"]
@@ -177,7 +194,7 @@ def release_env(env):
 
 def run_case(base, case):
     res = {"id": case["id"], "error": None, "writes": [], "revfile": None, "image_files": [], "images_dir": [],
-           "answers": []}
+           "answers": [], "redirect_of": []}
     cdir = os.path.join(base, "c%d" % case["id"])
     if os.path.lexists(cdir):
         raise RuntimeError("case directory exists: %s" % cdir)
